@@ -166,8 +166,12 @@ var c19OSDirs = []string{"/repo/testData/resolve", "/repo/testData/resolve", "/r
 //
 //gosym:reach dir,notfile
 func H_C19_osShort() {
-	vfOSRoot("/repo", "/repo")
 	r := ndChoice("root", len(c19OSRoots))
+	if r == 5 {
+		vfOSRoot("/verif/fixtures", "/repo")
+	} else {
+		vfOSRoot("/repo", "/repo")
+	}
 	n := 3 + vfTier()
 	k := ndChoice("len", n+1)
 	p := "/" + ndString("p", k)
